@@ -7,7 +7,7 @@ import os.path
 from abc import abstractmethod, ABCMeta
 from collections.abc import Iterable, Sequence
 from mailbox import Maildir, NoSuchMailboxError
-from typing import TypeAlias, TypeVar, Protocol
+from typing import ClassVar, TypeAlias, TypeVar, Protocol
 
 from pymap.exceptions import NotSupportedError
 
@@ -144,6 +144,10 @@ class MaildirLayout(Protocol[_MaildirT]):
 
 class _BaseLayout(MaildirLayout[_MaildirT], metaclass=ABCMeta):
 
+    #: The names that a part of a mailbox name cannot have, because the path
+    #: component made from it would be one that the layout itself uses.
+    _reserved: ClassVar[frozenset[str]] = frozenset()
+
     def __init__(self, path: str, maildir_type: type[_MaildirT]) -> None:
         super().__init__()
         self._path = path
@@ -165,7 +169,7 @@ class _BaseLayout(MaildirLayout[_MaildirT], metaclass=ABCMeta):
         # path itself in the 'fs' layout.
         if not parts[0] and not any(parts[1:2]) \
                 or any(part in ('.', '..') or '\0' in part or os.sep in part
-                       for part in parts):
+                       or part in cls._reserved for part in parts):
             raise NotSupportedError('Invalid mailbox name.')
         return parts
 
@@ -315,6 +319,13 @@ class FilesystemLayout(_BaseLayout[_MaildirT]):
         maildir_type: The :class:`~mailbox.Maildir` class override.
 
     """
+
+    # A sub-folder is a sub-directory of its parent folder, next to the
+    # directories and files that the maildir backend keeps in every folder.
+    _reserved = frozenset([
+        'new', 'cur', 'tmp', 'maildirfolder', 'subscriptions',
+        'subscriptions.lock', 'dovecot-uidlist', 'dovecot-uidlist.lock',
+        'dovecot-keywords', 'dovecot.sieve'])
 
     def _get_path(self, parts: _Parts) -> str:
         return os.path.join(self._path, *parts)
